@@ -657,6 +657,10 @@ def run(ctx: Ctx) -> None:
         "key and value names are interchangeable: keys come from a fixed pool in item order, values are 10*pos+1..; "
         "Lists=canon keeps one value list per renaming of the values of a key (sweep.py never inspects a value)",
         "dims are ordered set partitions of the item keys (plus None); a group lists its keys in item order",
+        "sum expressions: nesting depth <= 2 over the 2-3 operands in order (pairs: every mixture of spellings and unary "
+        "MultiSweep(x) nodes; triples: one spelling per expression); histories: <= 3 steps (x + y | x.combine(y) per "
+        "history, MultiSweep of 0..2 objects) over one fixed operand triple (two in the thorough tier), from the second "
+        "step on a step takes at least one earlier result; sweeps are values: a step may change no existing object",
         "don't-care (no claim): order when dims is not in item order; product with a Sweep({}) operand; len() of a sweep "
         "whose zipped lists differ in length; filtered_sweep with keys outside the sweep or an empty key set; products/sums "
         "of sweeps whose enumeration raises",
